@@ -298,6 +298,10 @@ class PymbolicToASTMapper(CachedMapper):
     def map_constant(self, expr: ScalarT) -> ast.expr:
         if isinstance(expr, bool):
             return ast.NameConstant(expr)
+        elif isinstance(expr, (int, float)) and expr < 0:
+            # Python has no negative literals: ast.unparse would print
+            # Power(-1, x) as '-1 ** x', i.e. -(1 ** x).
+            return ast.UnaryOp(ast.USub(), ast.Constant(-expr, None))
         else:
             return ast.Constant(expr, None)
 
